@@ -24,6 +24,7 @@ import (
 	"context"
 	"encoding/json"
 	"fmt"
+	"io"
 	"os"
 	"runtime/debug"
 	"sort"
@@ -34,10 +35,12 @@ import (
 
 	"github.com/logrange/logrange/api"
 	"github.com/logrange/logrange/pkg/lql"
+	"github.com/logrange/logrange/pkg/model"
 	"github.com/logrange/logrange/pkg/model/tag"
 	"github.com/logrange/logrange/pkg/partition"
 	"github.com/logrange/logrange/pkg/tindex"
 	"github.com/logrange/logrange/pkg/utils/verifhook"
+	"github.com/logrange/range/pkg/records"
 	"github.com/logrange/range/pkg/records/journal"
 	rerrors "github.com/logrange/range/pkg/utils/errors"
 	"verifharness/internal/lrsrv"
@@ -1233,6 +1236,38 @@ func sectionCallers(rng *vh.Rng) {
 	res.Done(sec)
 }
 
+// panicOrigin returns the function in which a recovered panic was raised (the frame below runtime's panic frames)
+func panicOrigin(stack string) string {
+	lines := strings.Split(stack, "\n")
+	for i, l := range lines {
+		if strings.HasPrefix(l, "panic(") {
+			for j := i + 2; j < len(lines); j += 2 {
+				if !strings.HasPrefix(lines[j], "runtime.") {
+					return lines[j]
+				}
+			}
+		}
+	}
+	return ""
+}
+
+// sliceIt is a model.Iterator over a slice (in-process writes)
+type sliceIt struct {
+	evs []model.LogEvent
+	i   int
+}
+
+func (s *sliceIt) Next(ctx context.Context) { s.i++ }
+func (s *sliceIt) Get(ctx context.Context) (model.LogEvent, tag.Line, error) {
+	if s.i >= len(s.evs) {
+		return model.LogEvent{}, "", io.EOF
+	}
+	return s.evs[s.i], "", nil
+}
+func (s *sliceIt) Release()                        {}
+func (s *sliceIt) SetBackward(bool)                {}
+func (s *sliceIt) CurrentPos() records.IteratorPos { return s.i }
+
 func recoverStack(f func()) (p string) {
 	defer func() {
 		if r := recover(); r != nil {
@@ -1252,7 +1287,7 @@ func recoverStack(f func()) (p string) {
 
 func sectionStress(rng *vh.Rng) {
 	sec := res.Section("stress", "stress",
-		"free-running goroutines on the in-process server for 40 s: 4 writers over 4 tag lines, 3 readers (un-cached SELECTs over RPC, GetJournals+Release, GetJournal+Release), 1 truncator (Truncate deleting everything it can, incl. empty partitions created through the tag index); afterwards: no panic, every reader count 0, nothing exclusively locked, every remaining partition can be locked exclusively; one evaluation per Truncate pass (all operations are counted in the distribution)")
+		"free-running goroutines on the in-process server for 40 s: 4 writers (partition.Service.Write) over 4 tag lines, 3 readers (un-cached SELECTs through backend.Querier, GetJournals+Release, GetJournal+Release), all in-process so that a panic is recovered and classified, 1 truncator (Truncate deleting everything it can, incl. empty partitions created through the tag index); afterwards: no panic, every reader count 0, nothing exclusively locked, every remaining partition can be locked exclusively; one evaluation per Truncate pass (all operations are counted in the distribution)")
 	dir := lrsrv.NewDir()
 	defer os.RemoveAll(dir)
 	srv, err := lrsrv.Start(dir, lrsrv.Opts{MaxChunkSize: 4096})
@@ -1288,9 +1323,8 @@ func sectionStress(rng *vh.Rng) {
 	for w := 0; w < 4; w++ {
 		w := w
 		guard("writer", func() {
-			var wr api.WriteResult
-			evs := []*api.LogEvent{{Timestamp: 1, Message: strings.Repeat("x", 200)}, {Timestamp: 2, Message: "y"}}
-			srv.Client.Write(context.Background(), fmt.Sprintf("c14=s%d", w), "", evs, &wr)
+			it := &sliceIt{evs: []model.LogEvent{{Timestamp: 1, Msg: []byte(strings.Repeat("x", 200))}, {Timestamp: 2, Msg: []byte("y")}}}
+			srv.Parts.Write(context.Background(), fmt.Sprintf("c14=s%d", w), it, false)
 		})
 	}
 	for r := 0; r < 3; r++ {
@@ -1298,8 +1332,8 @@ func sectionStress(rng *vh.Rng) {
 		guard("reader", func() {
 			switch r {
 			case 0:
-				var qr api.QueryResult
-				srv.Client.Query(context.Background(), &api.QueryRequest{Query: "select from c14 like \"s*\" limit 20", Limit: 20}, &qr)
+				// (the backend the RPC handler calls; in-process so that a panic is recovered in this goroutine)
+				srv.Querier.Query(context.Background(), &api.QueryRequest{Query: "select from c14 like \"s*\" limit 20", Limit: 20})
 			case 1:
 				if m, err := srv.Parts.GetJournals(context.Background(), all, 50); err == nil {
 					for _, j := range m {
@@ -1331,18 +1365,18 @@ func sectionStress(rng *vh.Rng) {
 	}
 	tainted, panicked := false, false
 	panics.Range(func(k, v interface{}) bool {
-		if strings.Contains(fmt.Sprint(v), "ctrlr.(*chunkWrapper)") {
+		if strings.HasPrefix(panicOrigin(fmt.Sprint(v)), "github.com/logrange/range/") {
 			// a chunk removed under a reader inside the journal library (chunk level, C09's area) — not the partition
 			// lock protocol; the panic unwinds through Visit, so the counts of this run say nothing
 			tainted = true
-			res.Note("stress: %v goroutine hit a nil dereference inside the journal library's chunkWrapper (chunk deleted under a reader); counts of this run are not judged", k)
+			res.Note("stress: %v goroutine panicked inside the journal library (chunk deleted under a reader or writer); counts of this run are not judged", k)
 			return true
 		}
 		panicked = true
 		res.SpecFail(vh.SpecFailure{Section: "stress", Kind: "panic", Input: map[string]interface{}{"seed": args.Seed}, Impl: fmt.Sprint(v), Spec: "no panic", What: fmt.Sprintf("%v goroutine panicked during the TRUNCATE/query/write race", k)})
 		return true
 	})
-	if hung && !panicked {
+	if hung && !panicked && !tainted {
 		res.SpecFail(vh.SpecFailure{Section: "stress", Kind: "hang", Input: map[string]interface{}{"seed": args.Seed}, Impl: "goroutines still blocked 30 s after the race was stopped", Spec: "every operation returns", What: "the TRUNCATE/query/write race did not come to rest (deadlock)"})
 	}
 	if tainted || hung || panicked {
